@@ -31,3 +31,7 @@ mod test {
         PORT.fetch_add(1, Ordering::Relaxed)
     }
 }
+
+#[cfg(all(test, pendulum_project_ntpd_rs_verif))]
+#[path = "/verif/harness/ntpd/hook_lib.rs"]
+mod verif_hook;
